@@ -21,7 +21,8 @@
 (*         strings over c.sigma up to length c.L (ys = compressed xs).     *)
 (***************************************************************************)
 EXTENDS RegexInt, SequencesExt, Json, IOUtils
-CONSTANTS DigitPalette      \* code points of the digits used by Gen
+CONSTANTS DigitPalette,     \* code points of the digits used by Gen
+          CcLen             \* longest concatenation list enumerated by Gen
 
 (* ---------------- term constructors ------------------------------------ *)
 StrT(cs) == [k |-> "str", s |-> cs]
@@ -57,11 +58,17 @@ Seq4 == { CatT(<<u, r>>) : u \in FirstUnions, r \in Level0 }
 (* <opt-pm> directly in front of a <regex>: the doctests use it (Concat(Option(Re("-")), Range("0","9"))) *)
 Seq5 == { CatT(s \o <<r>>) : s \in OptPm \ { <<>> }, r \in Level0 }
 
+(* concatenation lists for the compression clause: all lists up to CcLen over r, r*, r+ for two letters *)
+CcElems == { ReC(97), StarT(ReC(97)), PlusT(ReC(97)), ReC(98), StarT(ReC(98)) }
+RECURSIVE ListsOfLen(_, _)
+ListsOfLen(S, n) == IF n = 0 THEN { <<>> } ELSE { <<x>> \o t : x \in S, t \in ListsOfLen(S, n - 1) }
+CcLists == UNION { ListsOfLen(CcElems, n) : n \in 1..CcLen }
+
 VARIABLES done, i
 GInit == /\ done = JsonSerialize(IOEnv.OUT_FILE,
                      [level0 |-> SetToSeq(Level0), unions |-> SetToSeq(Unions1), seq1 |-> SetToSeq(Seq1),
                       seq2 |-> SetToSeq(Seq2), seq3 |-> SetToSeq(Seq3), seq4 |-> SetToSeq(Seq4),
-                      seq5 |-> SetToSeq(Seq5)])
+                      seq5 |-> SetToSeq(Seq5), cclists |-> SetToSeq(CcLists)])
          /\ i = 0
 GNext == UNCHANGED <<done, i>>
 
@@ -79,7 +86,7 @@ AbsLeast(S) == CHOOSE v \in S : \A w \in S : Abs(v) < Abs(w) \/ (Abs(v) = Abs(w)
 Signs(S) == (IF \E v \in S : v < 0 THEN "n" ELSE "") \o (IF 0 \in S THEN "z" ELSE "") \o (IF \E v \in S : v > 0 THEN "p" ELSE "")
 
 JudgeIv(c) ==
-  IF c.res # "some" THEN PrintT(<<"CASE", c.id, "iv", c.res, 0, 0, 0, 0>>)
+  IF c.res # "some" THEN PrintT(<<"CASE", c.id, "iv", c.res, 0, 0, 0, FALSE, 0>>)
   ELSE
   LET r == c.term
       I == c.iv
@@ -97,14 +104,15 @@ JudgeIv(c) ==
       unsoundS == { s \in strs : WellFormedNumeral(s) /\ Matches(s, r, NoEnv) /\ ~CoveredBy(I, IntVal(s)) }
       (* the padding lemma, re-checked on this very case when asked for *)
       lemmaBad == IF c.lemma /\ exactJudged THEN { v \in vals : HasWitness(r, v, J + 3) # W[v] } ELSE {}
-  IN /\ PrintT(<<"CASE", c.id, "iv", "some", Cardinality(matched), Cardinality(covered), J, exactJudged>>)
+  IN /\ PrintT(<<"CASE", c.id, "iv", "some", Cardinality(matched), Cardinality(covered), J, exactJudged,
+                  Cardinality(vals) + Cardinality(strs)>>)
      /\ (unsound = {} \/ PrintT(<<"MISMATCH", c.id, "soundness", AbsLeast(unsound), Cardinality(unsound), Signs(unsound)>>))
      /\ (unsoundS = {} \/ PrintT(<<"MISMATCH", c.id, "soundness-string", CHOOSE s \in unsoundS : TRUE, Cardinality(unsoundS), "">>))
      /\ (inexact = {} \/ PrintT(<<IF exactJudged THEN "MISMATCH" ELSE "UNJUDGED", c.id, "exactness", AbsLeast(inexact), Cardinality(inexact), Signs(inexact)>>))
      /\ (lemmaBad = {} \/ PrintT(<<"MODEL", c.id, "padding-lemma", AbsLeast(lemmaBad)>>))
 
 JudgeCc(c) ==
-  IF c.res # "ok" THEN PrintT(<<"CASE", c.id, "cc", c.res, 0, 0, 0, 0>>)
+  IF c.res # "ok" THEN PrintT(<<"CASE", c.id, "cc", c.res, 0, 0, 0, FALSE, 0>>)
   ELSE
   LET sigma == { c.sigma[k] : k \in 1..Len(c.sigma) }
       strs == StringsUpTo(sigma, c.L)
@@ -113,7 +121,7 @@ JudgeCc(c) ==
       ML == { s \in strs : Matches(s, lhs, NoEnv) }
       MR == { s \in strs : Matches(s, rhs, NoEnv) }
       diff == (ML \ MR) \cup (MR \ ML)
-  IN /\ PrintT(<<"CASE", c.id, "cc", "ok", Cardinality(ML), Cardinality(strs), c.L, TRUE>>)
+  IN /\ PrintT(<<"CASE", c.id, "cc", "ok", Cardinality(ML), Cardinality(MR), c.L, TRUE, Cardinality(strs)>>)
      /\ (diff = {} \/ PrintT(<<"MISMATCH", c.id, "compress", CHOOSE s \in diff : \A t \in diff : Len(s) <= Len(t),
                                 Cardinality(diff), IF ML \subseteq MR THEN "grew" ELSE IF MR \subseteq ML THEN "shrank" ELSE "both">>))
 
